@@ -24,6 +24,7 @@ class Result:
         self.undecided = []         # (where, reason) engine limits
         self.paths = 0
         self.effects = []
+        self.inlined = {}           # un-contracted repository helpers verified inside their callers
         self.time = 0.0
 
     def ok(self):
@@ -174,7 +175,10 @@ def explore_unit(res, run):
         ctx = Ctx(prefix)
         n_before = len(res.obligations)
         try:
-            run(ctx)
+            try:
+                run(ctx)
+            finally:
+                res.inlined.update(getattr(ctx, "inlined", {}))
         except Infeasible:
             continue
         except IfaceViolation as ex:
